@@ -8,6 +8,11 @@
         printed theory G is in a recorded defect class of C15 (Model/FolClass.known_class_theory: F7b,
         C15-RIMP); (cex ...) otherwise -- in particular when G is not even well-formed (a variable
         named `_`, finding F18).
+        Stronger than the class test alone: when the decidable premise ON THE INPUT of a theorem of
+        Properties/C15out.v holds (tau-star: no_keyword_predicate; natural, mu: no_keyword_front; gamma,
+        completion: the input theory is outside the classes) an output that is not fed back is a
+        counterexample even if it lies in a recorded class; so is an output of natural that is fed
+        back although no_keyword_front fails (C15_natural_output_F7b_iff).
      sem_fol_output_reparses_strict   the same without the class exclusion (known-finding replay).
 
      asp_node_roundtrip        (<kind> "text") -> (skip err|panic) | (rt <tree> "printed" <verdict>)
@@ -44,21 +49,73 @@ let fol_output_reparses (e : Sexp.t) : Sexp.t =
        L [ A "out"; of_theory g; of_str printed; verdict ])
   | e -> bad "fol_output_reparses: %s" (to_string e)
 
+(* Which theorem of Properties/C15out.v promises that the output of this command on this input is fed
+   back: the decidable premise ON THE INPUT holds (evaluated with the model parsers and the extracted
+   predicates).  None: no theorem applies (simplify: there is none; a premise does not hold). *)
+let promised (cmd : Sexp.t) (text : char list) : string option =
+  let program k =
+    match M.AspParse.parse_program_text text with
+    | M.AspParse.POk p -> k p
+    | _ -> None
+  in
+  let theory_in thm =
+    match M.FolParse.parse_theory_str text with
+    | M.FolParse.PR_ok t -> if M.FolClass.known_class_theory t = None then Some thm else None
+    | _ -> None
+  in
+  match cmd with
+  | L [ A "translate"; A "tau-star" ] ->
+    program (fun p -> if M.CliOut.no_keyword_predicate p then Some "C15_translate_output_reparses" else None)
+  | L [ A "translate"; A "natural" ] ->
+    program (fun p -> if M.FolOutClass.no_keyword_front p then Some "C15_natural_output_reparses" else None)
+  | L [ A "translate"; A "mu" ] ->
+    program (fun p -> if M.FolOutClass.no_keyword_front p then Some "C15_mu_output_reparses" else None)
+  | L [ A "translate"; A "gamma" ] -> theory_in "C15_gamma_output_reparses"
+  | L [ A "translate"; A "completion" ] -> theory_in "C15_completion_output_reparses"
+  | _ -> None
+
+(* the premise of C15_natural_output_F7b_iff fails: the output of natural MUST be in class F7b *)
+let natural_outside_premise (cmd : Sexp.t) (text : char list) : bool =
+  match cmd with
+  | L [ A "translate"; A "natural" ] ->
+    (match M.AspParse.parse_program_text text with
+     | M.AspParse.POk p -> not (M.FolOutClass.no_keyword_front p)
+     | _ -> false)
+  | _ -> false
+
 let sem_output ~(strict : bool) (e : Sexp.t) : Sexp.t =
   match e with
   | L [ _; L [ A "skip" ] ] -> L [ A "ok"; A "0" ]
-  | L [ _; L [ A "out"; _; _; L [ A "ok" ] ] ] -> L [ A "ok"; A "1" ]
-  | L [ _; L [ A "out"; g; printed; verdict ] ] ->
+  | L [ L [ cmd; (S _ as txt) ]; L [ A "out"; g; printed; verdict ] ] ->
     let t = theory g in
     let wf = M.FolClass.wf_theory t in
-    (match (if strict then None else M.FolClass.known_class_theory t) with
-     | Some _ when wf -> L [ A "ok"; A "0" ]
-     | cls ->
-       L [ A "cex";
-           L [ A "printed-output-does-not-reparse-to-the-same-theory"; verdict ];
-           L [ A "printed"; printed ];
-           L [ A "well-formed"; of_boolv wf ];
-           L [ A "class"; (match cls with Some c -> of_str c | None -> A "none") ] ])
+    let cls = M.FolClass.known_class_theory t in
+    let cls_sexp = match cls with Some c -> of_str c | None -> A "none" in
+    if verdict = L [ A "ok" ] then
+      (* fed back.  (An output in a recorded class can be fed back: the class F7b is a sound
+         over-approximation -- a keyword-prefixed function constant behind an opening parenthesis that the
+         printer keeps, `(notc$i - I$i) * 0 != X`, is classified but read back correctly; about 1 case in
+         200 000.)  For natural the premise is exact and its outputs have no such parentheses. *)
+      if (not strict) && natural_outside_premise cmd (str txt) then
+        L [ A "cex"; L [ A "no_keyword_front-fails-but-the-output-of-natural-is-fed-back"; A "C15_natural_output_F7b_iff" ];
+            L [ A "printed"; printed ]; L [ A "class"; cls_sexp ] ]
+      else L [ A "ok"; A "1" ]
+    else
+      (match (if strict then None else promised cmd (str txt)) with
+       | Some thm ->
+         (* also when the output is in a recorded class: the theorem says it is not *)
+         L [ A "cex";
+             L [ A "the-premise-of-a-theorem-holds-but-the-printed-output-is-not-fed-back"; A thm; verdict ];
+             L [ A "printed"; printed ]; L [ A "class"; cls_sexp ] ]
+       | None ->
+         (match (if strict then None else cls) with
+          | Some _ when wf -> L [ A "ok"; A "0" ]
+          | c ->
+            L [ A "cex";
+                L [ A "printed-output-does-not-reparse-to-the-same-theory"; verdict ];
+                L [ A "printed"; printed ];
+                L [ A "well-formed"; of_boolv wf ];
+                L [ A "class"; (match c with Some c -> of_str c | None -> A "none") ] ]))
   | L [ _; L [ A "panic" ] ] -> L [ A "cex"; L [ A "implementation-panics" ] ]
   | e -> bad "sem_fol_output_reparses: %s" (to_string e)
 
@@ -157,7 +214,19 @@ let sem_node ~(strict : bool) (e : Sexp.t) : Sexp.t =
            L [ A "printed"; printed ]; L [ A "tree"; tree ] ])
   | e -> bad "sem_asp_node_roundtrip: %s" (to_string e)
 
+(* fol_output_promised: (<command> "text") -> (promised "<theorem>") | (none)
+   the theorem of Properties/C15out.v whose premise on the INPUT holds (used by props/C15base.py on the
+   real binary: promised => the printed output must be a fixed point of `parse --as theory`) *)
+let fol_output_promised (e : Sexp.t) : Sexp.t =
+  match e with
+  | L [ cmd; (S _ as txt) ] ->
+    (match promised cmd (str txt) with
+     | Some thm -> L [ A "promised"; of_str (cl_of_string thm) ]
+     | None -> L [ A "none" ])
+  | e -> bad "fol_output_promised: %s" (to_string e)
+
 let () =
+  Ops.register "fol_output_promised" fol_output_promised;
   Ops.register "fol_output_reparses" fol_output_reparses;
   Ops.register "sem_fol_output_reparses" (sem_output ~strict:false);
   Ops.register "sem_fol_output_reparses_strict" (sem_output ~strict:true);
